@@ -147,7 +147,7 @@ def run_case(job):
             names = []
             for i, g in enumerate(gs):
                 vp.ARRAYS["g%d" % i] = to_array(g, nomask=(jid % 3 != 0))
-                nm = "Res%d" % i
+                nm = ["Z_first", "A_second", "M_third"][i]
                 p.add_command(p.find_command_class("ArrayConst"), nm, {"Key": "g%d" % i})
                 names.append(nm)
             p.add_command(p.find_command_class("EEMSWrite"), "W", OrderedDict([("OutFileName", "out.nc"), ("OutFieldNames", names),
